@@ -140,7 +140,8 @@ impl SatSolver for BufferedSatSolver {
         }
         let solving_result = match status {
             Some(true) => {
-                if assignment_line_seen {
+                // a model that is not terminated by 0 has been truncated: it is not a result
+                if assignment_line_seen && assignment_line_end {
                     SolvingResult::Satisfiable(Assignment::new(assignment))
                 } else {
                     SolvingResult::Unknown
